@@ -9,7 +9,7 @@ use crate::tables;
 pub struct C04;
 
 /// quantity spellings (literal, unit)
-pub const QUANT: [(&str, &str); 56] = [
+pub const QUANT: [(&str, &str); 63] = [
     ("3", "N"), ("10", "kg"), ("2", "km^2"), ("5", "m/s^2"), ("1", "Wb"), ("2", "V"), ("3", "mA"), ("1", "btu"), ("2", "h"), ("4", "l"),
     ("7", "m"), ("0.5", "s"), ("6", "J"), ("12", "W"), ("9", "Pa"), ("2", "C"), ("3", "F"), ("5", "ohm"), ("2", "T"), ("4", "H"),
     ("8", "ft"), ("3", "lb"), ("2", "gal"), ("1.5", "acre"), ("60", "km/h"), ("2", "kWh"), ("3", "N*m"), ("7", "kg*m/s^2"), ("2", "mol"), ("5", "cd"),
@@ -17,6 +17,8 @@ pub const QUANT: [(&str, &str); 56] = [
     // one unit under several prefixes and powers; prefixed bases; derived-per-base compounds
     ("1", "km"), ("5", "cm"), ("2", "mm^2"), ("1", "dm^3"), ("3", "Gm"), ("500", "mg"), ("3", "ns"), ("7", "m^2"), ("3", "cm^2"), ("2", "N/kg"),
     ("3", "kJ/kg"), ("2", "N/m"), ("5", "J/g"), ("4", "W/cm^2"), ("2", "N/cm"), ("6", "km/s^2"),
+    // one prefix on two units of one compound, under different powers
+    ("1", "mm/ms"), ("2", "km/ks"), ("3", "kN/km^2"), ("2", "mN*mm"), ("5", "kg*km/ks^2"), ("1", "mm^2/ms"), ("4", "kW/km^2"),
 ];
 
 fn quants() -> Vec<Expr> {
@@ -32,7 +34,7 @@ impl Prop for C04 {
         "C04"
     }
     fn rule(&self) -> String {
-        "55 quantity spellings (base, derived, prefixed, powered, compound, imperial, one unit under several prefixes and powers, derived-per-base compounds); one unit under two prefixes and two powers on either side of * and / (7 prefixes x powers 1..3, squared); zero-valued quantities, written and computed, under ^n (n in -3..3), * and / ; all ordered pairs x {*, /} with the right operand bare and parenthesised; all triples over a 15-spelling core x {*,/}^2 x both groupings; (q)^n for every spelling and n in -3..3; every documented unit name with prefix none/k/m as (2 u)^n. Compared in SI normal form (value and base dimensions) with the reference evaluation of the tree; the displayed unit is never compared. Non-trivial = at least one operator applied to a quantity with a non-empty unit; distinct = distinct query strings".into()
+        "62 quantity spellings (base, derived, prefixed, powered, compound, imperial, one unit under several prefixes and powers, derived-per-base compounds, one prefix on two units of a compound under different powers); one unit under two prefixes and two powers on either side of * and / (7 prefixes x powers 1..3, squared); zero-valued quantities, written and computed, under ^n (n in -3..3), * and / ; all ordered pairs x {*, /} with the right operand bare and parenthesised; all triples over a 15-spelling core x {*,/}^2 x both groupings; (q)^n for every spelling and n in -3..3; every documented unit name with prefix none/k/m as (2 u)^n. Compared in SI normal form (value and base dimensions) with the reference evaluation of the tree; the displayed unit is never compared. Non-trivial = at least one operator applied to a quantity with a non-empty unit; distinct = distinct query strings".into()
     }
     fn assumptions(&self) -> Vec<String> {
         vec!["unit scales come from the independent table (tables.rs), documented meanings".into(), "offset scales (°C, °F) are C09's subject".into()]
@@ -173,6 +175,6 @@ impl Prop for C04 {
         exprcheck::verdict(env.db(), &e, true)
     }
     fn bounds(&self, tier: Tier) -> serde_json::Value {
-        serde_json::json!({"quantities": 55, "triple_core": tier.pick(12, quants().len()), "quadruple_core": tier.pick(0, 10), "powers": tier.pick("-3..3", "-6..6")})
+        serde_json::json!({"quantities": 62, "triple_core": tier.pick(12, quants().len()), "quadruple_core": tier.pick(0, 10), "powers": tier.pick("-3..3", "-6..6")})
     }
 }
